@@ -624,6 +624,18 @@ def operands (P : Prims) (now : Int) (vt : String) (r v : Val) : Option (Val × 
   else none
 end Spec
 
+/-- for each value type of the property: (meaning of the new cel_value, meaning of the new key)
+that Custodian's `process_value_type` calls for -/
+def vtShape : String → Option (Xf × Xf)
+  | "size" => some (.sentinel, .size)
+  | "unique_size" => some (.sentinel, .uniqueSize)
+  | "integer" => some (.sentinel, .int)
+  | "normalize" => some (.sentinel, .normalize)
+  | "swap" => some (.value, .sentinel)
+  | "age" => some (.timestampValue, .nowMinusAge)
+  | "expiration" => some (.nowPlusAge, .timestampValue)
+  | _ => none
+
 /-- the value types of the property -/
 def vtNames : List String := ["size", "integer", "normalize", "swap", "unique_size", "age", "expiration"]
 
@@ -731,5 +743,7 @@ def balGo : Str → List Char → Option Char → Bool
     else balGo tl stack none
 
 def balanced (s : Str) : Bool := balGo s [] none
+
+def allBalanced (t : List (String × Str)) : Bool := t.all (fun p => balanced p.2)
 
 end Cel.XlateValue
